@@ -484,10 +484,16 @@ impl Scenario for QFlushScn {
                     None => cadence::QueuingMetricSink::from(logging),
                 }
             };
+            // one more handle of the queuing sink per 'X' in the program, made before the client takes
+            // the original; 'X' drops one of them while the client is in use
+            let mut clones: Vec<cadence::QueuingMetricSink> = scn.prog.bytes().filter(|b| *b == b'X').map(|_| q.clone()).collect();
             let client = StatsdClient::from_sink("", q);
             let mut k = 0;
             for op in scn.prog.bytes() {
                 match op {
+                    b'X' => {
+                        drop(clones.pop());
+                    }
                     b'E' => {
                         let key = format!("k{:04}", k);
                         k += 1;
@@ -525,6 +531,7 @@ impl Scenario for QFlushScn {
             sh.log.lock().unwrap().push(QEv::Final { seen });
         });
         let refusing = self.spyq.is_some();
+        let cap = self.cap;
         let judge = Box::new(move |end: &EndState| {
             let log = sh.log.lock().unwrap().clone();
             let wire = sh.wire.lock().unwrap().clone();
@@ -581,6 +588,34 @@ impl Scenario for QFlushScn {
                             if n > 1 || (n == 0 && !refusing) {
                                 br(&mut out, &["C06", "C09", "C12"], "queue-drop-conservation", format!("after the client was dropped and everything came to rest, {:?} appears {} times on the wire ({:?})", m, n, have));
                             }
+                        }
+                        // greedy packing (C19): the buffered sink writes only when the next metric does
+                        // not fit, on a flush, or when it is dropped. In-order packing of the lines that
+                        // left needs `need` datagrams; every flush can add at most one more.
+                        let mut need = 0usize;
+                        let mut fill = 0usize;
+                        for l in &have {
+                            let n = l.len() + 1;
+                            if n > cap {
+                                need += if fill > 0 { 2 } else { 1 };
+                                fill = 0;
+                            } else if fill + n > cap {
+                                need += 1;
+                                fill = n;
+                            } else {
+                                fill += n;
+                            }
+                            if fill == cap {
+                                need += 1;
+                                fill = 0;
+                            }
+                        }
+                        if fill > 0 {
+                            need += 1;
+                        }
+                        let flushes = log.iter().filter(|e| matches!(e, QEv::Flush { .. })).count();
+                        if *seen > need + flushes && !refusing {
+                            br(&mut out, &["C19"], "queue-wrapped-sink-not-greedy", format!("{} metrics left the buffered sink (capacity {}) behind the queuing sink in {} datagrams, but in-order packing needs {} and only {} flushes were requested ({:?})", have.len(), cap, seen, need, flushes, wire.iter().map(|d| String::from_utf8_lossy(d).to_string()).collect::<Vec<_>>()));
                         }
                         flags.push("final-wire-checked");
                     }
